@@ -241,6 +241,24 @@ mut("C02", "sigchld-reset-only-interactive", "R02-8|main|sigchld-disposition|run
     let sig_handler_enabled = tools::is_signal_handler_enabled();
 """))
 
+mut("C03", "splitter-quote-closed-by-any", "R03-9|parsers::parser_line::line_to_cmds|state-cleared-unguarded",
+    "an apostrophe also closes a double-quoted region in the list splitter",
+    (P, """            } else if sep == c.to_string() {
+                token.push(c);
+                sep = String::new();
+                continue;""", """            } else if sep == c.to_string() || c == '\\'' {
+                token.push(c);
+                sep = String::new();
+                continue;"""))
+ref("splitter-eq-flipped", ["C03", "C01"], "sep == c.to_string() written as c.to_string() == sep",
+    (P, """            } else if sep == c.to_string() {
+                token.push(c);
+                sep = String::new();
+                continue;""", """            } else if c.to_string() == sep {
+                token.push(c);
+                sep = String::new();
+                continue;"""))
+
 # ------------------------------------------------------------------ C08
 mut("C08", "child-keeps-read-end", "K3c", "child keeps the read end of its own output pipe",
     (C, '''                libs::dup2(fds.1, 1);
